@@ -29,7 +29,7 @@ ANCHORS = ['penman.layout:reconfigure', 'penman.layout:rearrange', 'penman.layou
            'penman.model:Model.alphanumeric_order', 'penman.model:Model.canonical_order',
            'penman.model:Model.original_order', 'penman.model:Model.random_order']
 PROBES = {'C17': 10}
-MIN_EVAL = {'quick': 800, 'thorough': 20000}   # graphs; each is run under 6 keys x 2 x 2
+MIN_EVAL = {'quick': 500, 'thorough': 10000}   # graphs; each is run under 6 keys x 2 x 2
 REQUIRED_COUNTERS = ['reconfigure', 'rearrange', 'implicit-top', 'aligned-role', 'key:canon', 'key:alnum']
 MODELS_R = ['default', 'amr', 'mini', 'rand1', 'rand2', 'default', 'amr']
 KEYS = ['none', 'orig', 'alnum', 'canon', 'rand']
